@@ -186,14 +186,22 @@ func VerifCipherObjectRoundTrip() {
 	esc, err := types.Escape(raw)
 	vp.Assume(err == nil)
 	hexBytes := vp.Bytes(vp.IntRange(0, vp.Bound("S")))
-	sig := vp.Bool()
+	// /FT and /Type in every combination: a dictionary is a signature (its /Contents stays in the clear)
+	// when /FT says so, or - without /FT - when /Type is Sig or DocTimeStamp; e.g. a merged field/widget
+	// dictionary has /Type /Annot and /FT /Sig
+	ft := []string{"", "Sig", "Tx"}[vp.Choice(3)]
+	typ := []string{"", "Sig", "DocTimeStamp", "Annot"}[vp.Choice(4)]
+	sig := ft == "Sig" || (ft == "" && (typ == "Sig" || typ == "DocTimeStamp"))
 	inner := types.Dict{"S": types.StringLiteral(*esc), "N": types.Integer(7)}
 	d := types.Dict{
 		"A":        types.Array{types.NewHexLiteral(hexBytes), inner, types.Name("Nm")},
 		"Contents": types.NewHexLiteral([]byte{0xAB, 0xCD}),
 	}
-	if sig {
-		d["Type"] = types.Name("Sig")
+	if ft != "" {
+		d["FT"] = types.Name(ft)
+	}
+	if typ != "" {
+		d["Type"] = types.Name(typ)
 	}
 	_, err = encryptDeepObject(d, objNr, genNr, key, needAES, r)
 	vp.Assert(err == nil, "encryptDeepObject failed")
